@@ -11,6 +11,7 @@ import (
 	"strings"
 
 	"github.com/gookit/rux"
+	"github.com/gookit/rux/pkg/handlers"
 )
 
 // family "chain": binds RuxChain (spec/RuxChain.tla) to Router.Use/Group/Add (+NotFound/NotAllowed/OnError/OnPanic),
@@ -96,6 +97,8 @@ func mkHandler(run **chainRun, h int, script [][]any) rux.HandlerFunc {
 				r.log = append(r.log, []any{"out", h, c.IsAborted()})
 			case "next":
 				c.Next()
+			case "catchnext":
+				handlers.PanicsHandler()(c)
 			case "abort":
 				c.Abort()
 			case "abortStatus":
